@@ -37,9 +37,7 @@ def main():
             meta["demo_with_patch_tail"] = (r1.stdout + r1.stderr)[-400:]
             ok &= (r0.returncode == 0 and r1.returncode != 0)
             results = {}
-            saved = os.path.join(VERIF, "build", "evidence.saved.%d" % os.getpid())
-            shutil.copytree(os.path.join(VERIF, "evidence"), saved)
-            try:
+            if True:   # (check.py writes evidence only for runs against /repo itself)
                 for p in props:
                     t0 = time.time()
                     r = sh(["python3", os.path.join(VERIF, "tools", "check.py"), p, tier], env=dict(os.environ, TULZ_REPO=d, VERIF_RUNS_SCALE=scale))
@@ -48,8 +46,6 @@ def main():
                                   "verdict": "caught" if r.returncode == 1 and "VIOLATION" in r.stdout else "missed" if r.returncode == 0 else "machinery-fault",
                                   "class": m.group(1) if m else None, "minimised_program": m.group(2) if m else None,
                                   "tail": r.stdout.strip().splitlines()[-1][:300] if r.stdout.strip() else r.stderr[-300:]}
-            finally:
-                shutil.rmtree(os.path.join(VERIF, "evidence")); shutil.copytree(saved, os.path.join(VERIF, "evidence")); shutil.rmtree(saved)
             meta["checks_run"] = {p: "python3 tools/check.py %s %s (TULZ_REPO=<scratch worktree with patch>, scale %s)" % (p, tier, scale) for p in props}
             meta["check_results"] = results
         meta["confirmed"] = bool(ok)
